@@ -58,6 +58,9 @@ class View(object):
         self.peer_serials = set()   # serials of tokens addressed to peers (everything else went to the driver)
 
 
+SIDE_IFACE = b"com.example.Exit"     # frames of checks/c05.py's send-and-exit bursts: judged there
+
+
 def token_of(m, tokens):
     if m.body and isinstance(m.body[0], bytes) and m.body[0] in tokens:
         return m.body[0]
@@ -206,6 +209,9 @@ def judge(tokens, views, obs, marks, unreliable=()):
             if tid is None:
                 if k.get(6) == BUS and eavesdrops(v, m):
                     stats["eavesdropped-calls-to-the-driver"] += 1      # somebody's RequestName / barrier / ...
+                    continue
+                if k.get(2) == SIDE_IFACE:
+                    stats["side-scenario-frames(judged by their own monitor)"] += 1
                     continue
                 V.append(("unattributable-frame:%s" % TYPE_NAME.get(m.type, "other"),
                           "connection #%d read a frame that is neither bus-originated nor carries a token: type=%d fields=%r"
